@@ -37,6 +37,8 @@ pub mod streaming_kzg {
 //@loopstart 1
             proof { broadcast use ax_mul_comm; }
 //@end
+    // `v.iter().take(n)`: the first min(n, len) elements
+    #[verifier::external_body] pub fn slice_take(v: &Vec<Fr>, n: usize) -> (r: &[Fr]) ensures r@.len() == (if n <= v@.len() { n as nat } else { v@.len() }), forall|i: int| 0 <= i < r@.len() ==> r@[i] == v@[i] { unimplemented!() }
     // R: `vec![F::one(); len]`
     #[verifier::external_body] pub fn vec_one(len: usize) -> (r: Vec<Fr>) ensures r@.len() == len, forall|i: int| 0 <= i < len ==> (#[trigger] r@[i])@ == f_one() { unimplemented!() }
 
@@ -85,6 +87,23 @@ pub mod streaming_kzg {
     }
 
     impl CommitterKey {
+//@fn id=streaming.time.new file=poly-commit/src/streaming_kzg/time.rs scope="impl<E: Pairing> CommitterKey<E>" name=new props=C09,C14
+        pub fn new(max_degree: usize, max_eval_points: usize, rng: &mut Rng) -> (r: Self)
+        requires
+            max_degree < usize::MAX, max_eval_points < usize::MAX,
+        ensures
+            // trapdoor form: tau, G and H are the first three draws of the caller's RNG
+            r.powers_of_g@.len() == max_degree + 1,
+            forall|i: int| 0 <= i <= max_degree ==> (#[trigger] r.powers_of_g@[i])@ == f_mul(draw(old(rng).id@, old(rng).pos@ + 1), f_pow(draw(old(rng).id@, old(rng).pos@), i as nat)),   // name=streaming.time.new.g1_powers_of_tau props=C09,C14
+            r.powers_of_g2@.len() == (if max_eval_points <= max_degree { max_eval_points + 1 } else { max_degree + 1 }),
+            forall|i: int| 0 <= i < r.powers_of_g2@.len() ==> (#[trigger] r.powers_of_g2@[i])@ == f_mul(draw(old(rng).id@, old(rng).pos@ + 2), f_pow(draw(old(rng).id@, old(rng).pos@), i as nat)),   // name=streaming.time.new.g2_powers_of_tau props=C09,C14
+//@body
+//@rw 1 /E::ScalarField::rand\(rng\)/ => Fr::rand(rng)
+//@rw 1 /E::G1::rand\(rng\)/ => G1::rand(rng)
+//@rw 1 /E::G2::rand\(rng\)/ => G2::rand(rng)
+//@rw 1 /(?s)powers_of_tau\s*\.iter\(\)\s*\.take\(max_eval_points \+ 1\)/ => slice_take(&powers_of_tau, max_eval_points + 1).iter()
+//@closure |t| => |t: &Fr| -> (o: G2Affine) ensures o@ == f_mul(g2@, t@)
+//@end
 //@fn id=streaming.time.commit file=poly-commit/src/streaming_kzg/time.rs scope="impl<E: Pairing> CommitterKey<E>" name=commit props=C14,C08,C01
         pub fn commit(&self, polynomial: &[Fr]) -> (r: Commitment)
         ensures
